@@ -293,9 +293,9 @@ func c18(e *Env) {
 	}
 	c.Floor("language-keys", 2*100)
 	e.tableImmutability("table-immutability", "v3/report/names", "v3/metric")
-	for _, p := range e.F.Problems {
-		c.Fail("table-model", "package-level tables", "", p)
-	}
+	e.tableModelProblems(func(t *facts.Table) bool {
+		return tableInPkgs(t, "v3/report/names") || (t.IsData() && tableInPkgs(t, "v3/metric"))
+	})
 	c.Analysed["title_functions"] = len(nf.titles)
 	c.Analysed["value_functions"] = len(nf.values)
 	c.Analysed["language_tables"] = nTab
